@@ -84,6 +84,46 @@ func c14(c *an.Ctx) {
 		ruleSameAliasAgreement(c, o)
 	})
 
+	c.Check("R-POST", "prepareQuery validates every fragment below an object against that object: the executor inlines all of them (Flatten does not look at type conditions), so a fragment that validation skips is executed unvalidated", 1, func(o *an.O) {
+		fn := c.NeedFunc(gq, "prepareQuery")
+		n := 0
+		for _, rc := range an.CallsToFunc(fn, fn) {
+			call := an.CallOf(rc)
+			// the recursion over fragment bodies with the object's own type: the selection-set argument
+			// is a fragment's SelectionSet and the type argument does not come from a range over a map
+			if !an.IsFieldAccess(call.Args[2], "Fragment", "SelectionSet") {
+				continue
+			}
+			fromMap := false
+			for _, leaf := range phiLeaves(an.StripConv(call.Args[1])) {
+				if ex, ok := leaf.(*ssa.Extract); ok {
+					if _, isNext := ex.Tuple.(*ssa.Next); isNext {
+						fromMap = true
+					}
+				}
+			}
+			if fromMap {
+				continue // union members: fragments are matched to member types
+			}
+			h := an.LoopHeaderOf(rc)
+			if h == nil {
+				continue
+			}
+			n++
+			o.Site(rc)
+			body := h.Succs[0]
+			if len(body.Instrs) == 0 || body.Instrs[0] == rc {
+				continue
+			}
+			if an.Reach(fn, body.Instrs[0], an.NewBlocker(rc))[h.Instrs[0]] {
+				o.FailAt(rc, "prepareQuery can pass over a fragment below an object without validating its body: Flatten inlines every fragment whatever its type condition, so the skipped selections are executed without argument parsing or field checks (nil field / nil selection set panics on a scheduler goroutine)")
+			}
+		}
+		if n == 0 {
+			o.Fail(p.Pos(fn.Pos()), "prepareQuery does not validate the fragments below an object")
+		}
+	})
+
 	c.Check("R-BOOL", "prepareQuery accepts __typename exactly when it has neither arguments nor sub-selections, without consulting the field table (objects and unions)", 2, func(o *an.O) {
 		ruleTypenameSelection(c, o)
 	})
